@@ -44,6 +44,12 @@ def print(*a):
     _out.write(' '.join(str(x) for x in a) + '\n')
 
 sm = matrix(os.path.join(root, 'seeded', 'MATRIX.txt'))
+# rows the last matrix run evaluated for their own property only are marked "own-only" after the bar
+own_only = set()
+if os.path.exists(os.path.join(root, 'seeded', 'MATRIX.txt')):
+    for line in open(os.path.join(root, 'seeded', 'MATRIX.txt')):
+        if line.rstrip().endswith('own-only'):
+            own_only.add(line.split(':')[0])
 _out = open(os.path.join(root, 'seeded', 'TABLE.md'), 'w')
 print('Seeded changes (each breaks the property in its name; confirmed by tools/seed_confirm.sh) and the')
 print('properties whose quick check reports them. `rule?` = reported through an undecided obligation.')
@@ -61,11 +67,13 @@ for name in sorted(os.listdir(os.path.join(root, 'seeded'))):
         mine = [h for h in hits if h.startswith(prop)]
         own = '**no**' if not mine else (mine[0][len(prop):].strip('[]') or 'yes')
         others = ' '.join(h.split('[')[0] for h in hits if not h.startswith(prop))
+        if name in own_only:
+            others = '(evaluated for its own property only)'
     print('| %s | %s | %s | %s |' % (name, title(d).replace('|', '/'), own, others or '—'))
 _out.close()
 rm = matrix(os.path.join(root, 'refactors', 'MATRIX.txt'))
 _out = open(os.path.join(root, 'refactors', 'TABLE.md'), 'w')
-print('Behaviour-preserving refactorings (R*) and property-preserving commits (KC*, KDC*) and the properties')
+print('Behaviour-preserving refactorings (R*) and property-preserving commits (KC*, KDC*, KEC*, KFC*) and the properties')
 print('whose quick check reports them (should be none; the exceptions are in KNOWN_ALARMS.json).')
 print()
 print('| refactor | what it does | reported by (should be none) |')
